@@ -224,11 +224,14 @@ Print Assumptions C11_strictly_increasing.
 
 (* after every step of the I/O loop each registered observer has either been sent the current
    value (acao_chg = 0) or its session's NSTART window is full (con_active at the start of the step
-   plus the confirmable messages of this step); true after every step, so the first step with a
-   free slot delivers the then-current value *)
+   plus the confirmable messages of this step) or an unfinished large (Block2) transmission to its
+   session is in progress (second input of the step, carried in the same list under the key
+   session + ob_lg_off; the term ac_count_con (s + ob_lg_off) only matters for a session with that
+   number); true after every step, so the first step with a free slot delivers the then-current value *)
 Theorem C11_latest_eventually : forall c st ca outs st' r s t o',
   ac_step c st (ObOpIoStep ca, outs) = AcOk st' -> ac_entry st' r s t = Some o' ->
-  acao_chg o' = 0 \/ accf_nstart c <= ob_ca_get ca s + ac_count_con s outs.
+  acao_chg o' = 0 \/ accf_nstart c <= ob_ca_get ca s + ac_count_con s outs \/
+  0 < ob_ca_get ca (s + ob_lg_off) + ac_count_con (s + ob_lg_off) outs.
 Proof. exact ac_latest_after_step. Qed.
 Print Assumptions C11_latest_eventually.
 
